@@ -45,6 +45,33 @@ class Ctx:
         print(f"[{self.pid}]", *a, flush=True)
 
     # ---- coq
+    def coq_build_cached(self, files, timeout=900):
+        """Sequential build where a file is recompiled only if its source, any earlier file in the
+        list, any Base file or the Coq version changed since its .vo was produced."""
+        done = []
+        for f in files:
+            p = COQ / f if not Path(f).is_absolute() else Path(f)
+            hits = coqrun.forbidden_tokens(p)
+            if hits:
+                self.violation("gate", f"forbidden construct in {f}", {"hits": hits[:10]})
+                return {"ok": False, "file": str(f), "failed_lemma": None, "out": str(hits)}
+            r = coqrun.coqc_cached(p, done, timeout=timeout)
+            names = coqrun.obligations(p)
+            self.coq_files.append(str(f))
+            self.obligation_names += [f"{Path(f).stem}.{n}" for n in names]
+            self.extra.setdefault("reused_vo", [])
+            if r.get("reused"):
+                self.extra["reused_vo"].append(str(f))
+            if not r["ok"]:
+                if r["failed_lemma"] in names:
+                    self.discharged += names.index(r["failed_lemma"])
+                return {"ok": False, "file": r["file"], "failed_lemma": r["failed_lemma"], "out": r["out"][-3000:]}
+            self.discharged += len(names)
+            self.assumptions_out += coqrun.parse_assumptions(r["out"])
+            done.append(p)
+        self.checker_cmds.append("coqc -Q coq Verif " + " ".join(str(f) for f in files) + " (content-keyed reuse)")
+        return {"ok": True}
+
     def coq_build(self, files, timeout=900, force=True):
         """Compile files in order; record obligations; on failure record a theorem-broken
         pending item (returned) -- the caller runs Search and then calls self.violation."""
@@ -65,7 +92,7 @@ class Ctx:
             if r["ok"]:
                 self.assumptions_out += coqrun.parse_assumptions(r["out"])
         if ok:
-            self.discharged = len(self.obligation_names)
+            self.discharged += sum(len(coqrun.obligations(Path(f) if Path(f).is_absolute() else COQ / f)) for f in files)
             return {"ok": True, "results": results}
         bad = results[-1]
         # obligations in files that compiled + those before the failing lemma
@@ -78,7 +105,45 @@ class Ctx:
                     good += names.index(bad["failed_lemma"])
                 break
             good += len(names)
-        self.discharged = good
+        self.discharged += good
+        return {"ok": False, "file": bad["file"], "failed_lemma": bad["failed_lemma"], "out": bad["out"][-3000:]}
+
+    def coq_build_parallel(self, files, timeout=900, workers=8, deps=None):
+        """Compile independent files concurrently (all their deps must already be built).
+        Returns {"ok": True} or the first failure record."""
+        from concurrent.futures import ThreadPoolExecutor
+        for f in files:
+            p = Path(f) if Path(f).is_absolute() else COQ / f
+            hits = coqrun.forbidden_tokens(p)
+            if hits:
+                self.violation("gate", f"forbidden construct in {f}", {"hits": hits[:10]})
+                return {"ok": False, "file": str(f), "failed_lemma": None, "out": str(hits)}
+        with ThreadPoolExecutor(max_workers=workers) as ex:
+            def one(f):
+                p = COQ / f if not Path(f).is_absolute() else Path(f)
+                if deps is not None:
+                    return coqrun.coqc_cached(p, [COQ / d for d in deps], timeout=timeout)
+                return coqrun.coqc(p, timeout=timeout)
+            results = list(ex.map(one, files))
+        self.extra.setdefault("reused_vo", [])
+        self.extra["reused_vo"] += [str(f) for f, r in zip(files, results) if r.get("reused")]
+        self.checker_cmds.append("coqc -Q coq Verif {" + ",".join(str(f) for f in files) + "} (parallel)")
+        bad = None
+        for f, r in zip(files, results):
+            p = Path(f) if Path(f).is_absolute() else COQ / f
+            names = coqrun.obligations(p)
+            self.coq_files.append(str(f))
+            self.obligation_names += [f"{Path(f).stem}.{n}" for n in names]
+            if r["ok"]:
+                self.assumptions_out += coqrun.parse_assumptions(r["out"])
+                self.discharged += len(names)
+            else:
+                if r["failed_lemma"] in names:
+                    self.discharged += names.index(r["failed_lemma"])
+                if bad is None:
+                    bad = r
+        if bad is None:
+            return {"ok": True, "results": results}
         return {"ok": False, "file": bad["file"], "failed_lemma": bad["failed_lemma"], "out": bad["out"][-3000:]}
 
     # ---- verdicts
